@@ -309,7 +309,7 @@ func isPrefixOfAlphabetStream(b []byte) bool {
 }
 
 var aeValue = map[string]string{"gzip": "gzip", "gzip_deflate": "gzip, deflate", "deflate_gzip": "deflate,gzip", "br_gzipq": "br, gzip;q=0.8",
-	"GZIP": "GZIP", "identity": "identity", "deflate": "deflate", "gzipx": "gzipx", "x-gzip": "x-gzip"}
+	"GZIP": "GZIP", "gzip_q0": "gzip;q=0", "gzip_q00": "gzip;q=0.0", "gzip_q000sp": "gzip; q=0.000", "gzip_q0dot": "deflate, gzip;q=0.", "identity": "identity", "deflate": "deflate", "gzipx": "gzipx", "x-gzip": "x-gzip"}
 
 func main() {
 	logging.Init(config.LoggingConfig{Level: "fatal", Format: "json"})
